@@ -200,6 +200,7 @@ class Run:
                     self.metadata_games = True
                 for m in step['muts']:
                     self.sb.apply_mutation(m)
+                self.free_prev = None
                 self.log.append(['mutate', i])
             elif op == 'build':
                 self.build_step(i, step)
@@ -596,7 +597,17 @@ class Run:
                                   if c['frame'] == e['key']]
             elif not e['ok']:
                 recs.pop(e['key'], None)
-        if step.get('sched') is None and had_cache:
+        if step.get('noexec') and \
+                getattr(self, 'free_prev', None) == step.get('root', 0) and \
+                [x for x in real.order if x != 'root']:
+            # nothing changed since the previous (threaded) build committed:
+            # every record is valid, no function may run again
+            raise Violation(
+                ['C05', 'C09'] + [t for t in tags if t not in ('C05', 'C09')],
+                'O-inv', 'unjustified-after-threads',
+                {'real_executed': real.order}, i)
+        if step.get('sched') is None and had_cache and \
+                not step.get('nodiff'):
             targets = [t for t in sorted(self.program_targets())]
             fake = types.SimpleNamespace(outputs=targets, created_dirs=[])
             ctx = {'pre': pre, 'prev': fake, 'real': real, 'post': post}
@@ -608,6 +619,7 @@ class Run:
             sb.restore(post)
             self.probe('scratch-differentials')
         self.stats['commits'] += 1
+        self.free_prev = step.get('root', 0)
 
     def free_clean_step(self, i, step):
         sb = self.sb
@@ -638,6 +650,7 @@ class Run:
             raise Violation(props, 'O-tree', 'clean-left-f',
                             {'path': left[0]}, i)
         self.race_records.clear()
+        self.free_prev = None
 
     def refused_call_effect(self, step, ent, post, pre):
         """Did a builder call that raised RuntimeError('already finished')
